@@ -255,6 +255,36 @@ func (g *Gen) Target() []*GVsys {
 			}
 			v.Rules = append(v.Rules, r)
 		}
+		if g.Rng.Intn(4) == 0 {
+			// A large group and a scattered subset of it, each used by a
+			// rule of its own (see edit big-groups-merged).
+			big := append([]string{"gbig"}, g.members(v, 8+g.Rng.Intn(3))...)
+			sub := []string{"gsub"}
+			a := 1 + g.Rng.Intn(2)     // first dropped block starts here
+			b := a + 2 + g.Rng.Intn(2) // second one, at least one kept member between
+			for i, m := range big[1:] {
+				if i == a || (i == a+1 && g.Rng.Intn(2) == 0) || i == b || i == b+1 {
+					continue
+				}
+				sub = append(sub, m)
+			}
+			v.Groups = append(v.Groups, big, sub)
+			mk := func(name, grp string) *GRule {
+				r := &GRule{Name: name, Action: "allow", From: "z1", To: "z2", LogEnd: "yes", Srv: []string{"any"}}
+				r.Src, r.Dst = []string{grp}, []string{"any"}
+				if g.Rng.Intn(3) == 0 {
+					r.Src, r.Dst = r.Dst, r.Src
+				}
+				return r
+			}
+			r1, r2 := mk("rb1", "gsub"), mk("rb2", "gbig")
+			if g.Rng.Intn(2) == 0 {
+				r1, r2 = r2, r1
+			}
+			k := g.Rng.Intn(len(v.Rules) + 1)
+			v.Rules = append(v.Rules[:k:k], append([]*GRule{r1}, v.Rules[k:]...)...)
+			v.Rules = append(v.Rules, r2)
+		}
 		g.prune(v)
 		res = append(res, v)
 	}
@@ -317,7 +347,18 @@ func (g *Gen) Device(t []*GVsys, nedits int) ([]*GVsys, []string) {
 				}
 			}
 		}
-		switch g.Rng.Intn(19) {
+		switch g.Rng.Intn(20) {
+		case 19: // the large group serves both rules on the device
+			if hasGroup(v, "gbig") && hasGroup(v, "gsub") {
+				renameGroup("gsub", "gbig")
+				for i, gr := range v.Groups {
+					if gr[0] == "gsub" {
+						v.Groups = append(v.Groups[:i], v.Groups[i+1:]...)
+						break
+					}
+				}
+				ops = append(ops, "big-groups-merged")
+			}
 		case 0: // rule missing on device
 			if len(v.Rules) > 0 {
 				i := g.Rng.Intn(len(v.Rules))
